@@ -312,7 +312,6 @@ def evo_child(arg):
 
             res["steps"].append([name, "raise", "%s: %s" % (type(e).__name__, str(e)[:200]), traceback.format_exc()[-600:]])
 
-    step("call", lambda: [mod.caller(1), REC.names()])
     mem = None
 
     def get_mem():
@@ -324,9 +323,12 @@ def evo_child(arg):
                                 for x in mem.invocation_metadata.invocations],
                 "dependencies": sorted([r.qualified_name, bool(r.external)] for r in mem.function_dependencies)}
 
-    step("memento", get_mem)
-    step("list_mementos", lambda: len(mod.caller.list_mementos()))
-    step("list_functions", lambda: sorted(r.qualified_name for r in m.list_memoized_functions(cluster)))
+    first_four = {"call": lambda: [mod.caller(1), REC.names()], "memento": get_mem,
+                  "list_mementos": lambda: len(mod.caller.list_mementos()),
+                  "list_functions": lambda: sorted(r.qualified_name for r in m.list_memoized_functions(cluster))}
+    # (the order in which a fresh process asks - listing the store first, reading the caller's entry first, ... - varies)
+    for name in arg.get("order") or list(first_four):
+        step(name, first_four[name])
     step("trace", lambda: (mem.trace() if mem is not None else None))
     if hasattr(mod, "apply"):
         def listed_apply():
@@ -372,8 +374,11 @@ def run_evolve(case, out, fail):
             with open(os.path.join(src, modname + ".py"), "w") as f:
                 f.write(evo_module(cluster, stage, evolution, case.get("shape", "direct")))
             try:
+                order = ["call", "memento", "list_mementos", "list_functions"]
+                if stage > 0:
+                    core.rng_for(case["seed"], ID, "order", case["idx"], stage).shuffle(order)
                 results.append(procs.in_child(evo_child, {"root": sc.root, "src": src, "mod": modname, "cluster": cluster,
-                                                         "cache": case["cache"]}))
+                                                         "cache": case["cache"], "order": order}))
             except procs.ChildFailed as e:
                 return fail("harness: evolution child failed", "%s stage %d: %s" % (label, stage, e))
         first = {s[0]: s for s in results[0]["steps"]}
